@@ -50,8 +50,11 @@ def algebraic_scalar(rng):
 
 
 def big_id(rng):
-    if rng.random() < 0.35:
+    t = rng.random()
+    if t < 0.3:
         return algebraic_scalar(rng)
+    if t < 0.5:
+        return sparse_id(rng)
     """an identity placed relative to the fixed points of the reductions identities go through: a multiple of r (or 2^255, 2^256) plus or
     minus an offset of a random magnitude"""
     base = rng.choice([R, 2 * R, 1 << 255, 1 << 256, 0])
@@ -71,6 +74,20 @@ def nudge(v, rng, small):
 _X2 = O.XA * O.XA
 # values that are special for the GLV / base-|x| scalar decompositions underneath every h^id (see algebraic_scalar)
 ALGEBRAIC = [_X2, 2 * _X2, R - _X2, R - 2 * _X2, R - 77 * _X2, _X2 - 1, R - (_X2 - 1), 2 * _X2 + R, R - _X2 + R, 3 * (_X2 - 1) % R, O.XA, O.XA ** 3]
+
+
+# identities with whole 32- / 64-bit words equal to zero in the middle or at the bottom (and something above them): a width test that
+# looks at one word or one double word takes them for short values
+SPARSE_WORDS = [(7 << 128) | 42, 1 << 200, (1 << 192) | 1, 1 << 64, 1 << 128, 5 << 64, (0xabc << 224) | (3 << 32), (1 << 160) | (1 << 31), (0xffffffff << 96) | 9, 1 << 255]
+
+
+def sparse_id(rng):
+    """a 256-bit value in which a random non-empty subset of the eight 32-bit words is non-zero, all others zero"""
+    v = 0
+    for w in range(8):
+        if rng.random() < 0.35:
+            v |= rng.choice([1, 0xffffffff, 0x80000000, rng.getrandbits(32) | 1]) << (32 * w)
+    return v or (1 << 128)
 
 
 def idhex(v):
